@@ -645,6 +645,9 @@ class Quantity:
             other = self._unit_database.GetInfo(self._quantity_type, to_unit, fix_unknown=True)
 
             return other.frombase(self._tobase(value))
+        elif to_unit == self._unit:
+            # same (derived) unit: no conversion needed
+            return value
         else:
             return self.Convert(value, to_unit)
 
